@@ -579,7 +579,7 @@ def StoresValid (n n' : Node J V) : Prop :=
   n' = n ∨ ∃ mod p e, mod ∈ n ∧ Acc.param p ∈ mod.accs ∧ n' = setEntry n mod.name p.attr e ∧
     (Validated p.dt e.value ∨ e.value = p.entry.value)
 
-theorem eq_of_nodup_map {α β : Type} (f : α → β) (l : List α) (h : (l.map f).Nodup) (x y : α) (hx : x ∈ l) (hy : y ∈ l)
+theorem unique_of_nodup_map {α β : Type} (f : α → β) (l : List α) (h : (l.map f).Nodup) (x y : α) (hx : x ∈ l) (hy : y ∈ l)
     (hxy : f x = f y) : x = y := by
   induction l with
   | nil => cases hx
@@ -601,7 +601,7 @@ theorem cacheValid_of_storesValid (pre : Predef) (n n' : Node J V) (hwf : Node.W
     unfold updMod at hp'
     by_cases hname : (m0.name == mod.name) = true
     · rw [if_pos hname] at hp'
-      have hm : m0 = mod := eq_of_nodup_map (fun m : Module J V => m.name) n hwf.names m0 mod hm0 hmod (by simpa using hname)
+      have hm : m0 = mod := unique_of_nodup_map (fun m : Module J V => m.name) n hwf.names m0 mod hm0 hmod (by simpa using hname)
       subst hm
       simp only [Module.setEntry, List.mem_map] at hp'
       obtain ⟨a0, ha0, ha0'⟩ := hp'
@@ -613,7 +613,7 @@ theorem cacheValid_of_storesValid (pre : Predef) (n n' : Node J V) (hwf : Node.W
         · rw [if_pos hattr] at ha0'
           injection ha0' with ha0'; subst ha0'
           have hpp : Acc.param p0 = Acc.param p :=
-            eq_of_nodup_map Acc.attr m0.accs (hwf.attrs m0 hm0) _ _ ha0 hp (by simpa [Acc.attr] using hattr)
+            unique_of_nodup_map Acc.attr m0.accs (hwf.attrs m0 hm0) _ _ ha0 hp (by simpa [Acc.attr] using hattr)
           injection hpp with hpp; subst hpp
           refine ⟨?_, (hc m0 hm0 p0 hp).2⟩
           rcases hval with hv | hv
